@@ -149,7 +149,8 @@ type Case struct {
 	Sets     [][]LbVal `json:"sets"`
 	Headers  []Hdr    `json:"headers"`
 	Parent   uint64   `json:"parent"`
-	HNum     uint64   `json:"hnum"`
+	HNum     uint64   `json:"hnum"`           // number of the block being built / validated; Parent = HNum-1
+	Head     *uint64  `json:"head,omitempty"` // number of the local chain head (absent: the parent); must not matter
 	Vals     []CurVal `json:"vals"`
 	Queue    []WRec   `json:"queue"`
 	Mode     string   `json:"mode"` // "build", "replay", "penal"
@@ -374,7 +375,17 @@ type world struct {
 	yp    *params.YouParams
 }
 
+func headOf(c *Case) uint64 {
+	if c.Head != nil {
+		return *c.Head
+	}
+	return c.Parent
+}
+
 func buildWorld(c *Case) *world {
+	if c.HNum != c.Parent+1 {
+		panic("case: hnum must be parent+1 (the parent height is read from the header)")
+	}
 	w := &world{}
 	w.db = youdb.NewMemDatabase()
 	w.sdb = state.NewDatabase(w.db)
@@ -406,7 +417,7 @@ func buildWorld(c *Case) *world {
 		rawdb.WriteHeader(w.db, hd)
 		rawdb.WriteCanonicalHash(w.db, hd.Hash(), h.Num)
 	}
-	head := &types.Header{Number: new(big.Int).SetUint64(c.Parent), CurrVersion: params.YouV5,
+	head := &types.Header{Number: new(big.Int).SetUint64(headOf(c)), CurrVersion: params.YouV5,
 		Subsidy: new(big.Int), GasRewards: new(big.Int)}
 	w.bc = core.VerifStubChainC05(w.db, w.sdb, head)
 	w.st = staking.NewStaking(nil)
